@@ -5,32 +5,6 @@ import Mathlib.Data.Nat.Digits.Defs
     decides equality of the rational values. -/
 namespace JEqNum
 
-/-- a number spelling, field for field what the text contains (so equal spellings = equal bytes) -/
-structure Spell where
-  neg : Bool
-  int : List ℕ
-  frac : Option (List ℕ)
-  exp : Option (Bool × Option Bool × List ℕ)   -- (capital E, sign none/+/- as none/some false/some true, digits)
-deriving DecidableEq
-
-def value (ds : List ℕ) : ℕ := ds.foldl (fun v d => v * 10 + d) 0
-
-def fracDigits (s : Spell) : List ℕ := s.frac.getD []
-def mant (s : Spell) : ℕ := value (s.int ++ fracDigits s)
-def expo (s : Spell) : ℤ :=
-  (match s.exp with
-   | none => 0
-   | some (_, sg, ds) => if sg = some true then -(value ds : ℤ) else (value ds : ℤ)) - ((fracDigits s).length : ℤ)
-/-- jx `Num.Zero()` as `equalNumber` uses it: no exponent and nothing but `0`, `.`, `-` -/
-def isZeroS (s : Spell) : Bool := s.exp.isNone && (s.int ++ fracDigits s).all (· == 0)
-def isIntS (s : Spell) : Bool := s.frac.isNone && s.exp.isNone
-
-def numEqS (a b : Spell) : Bool :=
-  if isZeroS a && isZeroS b then true
-  else if a == b then true
-  else if isIntS a && isIntS b then false
-  else cmp a.neg (mant a) (expo a) b.neg (mant b) (expo b)
-
 def valS (s : Spell) : ℚ := val s.neg (mant s) (expo s)
 
 /-- the part of the JSON number grammar the proof needs: a non-empty integer part of decimal digits without a
